@@ -11,6 +11,7 @@ Byte strings are tokens (`[id]`); the library functions are tables carried by th
                                       exp `!` undecodable, `~<digest>` bare base64 (no `Q1` prefix), else digest text, fetched `-` or `<sig|->:<ctl>:<dat>`
   round 2: entry may carry two more fields `.<hexlink>.<hextartarget>`; pkg a fourth field `.<hex checksum string>`
   (default: the `exp` text); op a fourth field `@f` (fresh process, default) or `@s` (same process as the previous op)
+  round 5: pkg a fifth field `.<fetched>/<fetched>…`: the answers to the later GETs of the URL within the operation
 Requests: `auth.verdict H C D OPS k`  → Impl verdict of op k, Spec verdict, class
           `auth.installed H C D OPS k` → control checksums that a successful build records (Impl) / the expected ones (Spec)
           `auth.files   H C D OPS k`  → `<hexname>=<body token>` of every regular file the build lays out: what it serves
@@ -81,6 +82,8 @@ def parsePkg (s : String) : Option PkgReq :=
                         raw := e.toList }
   | [k, e, f, r] => some { key := unhexS k, expected := parseWant e, fetched := if f = "-" then none else parseApk f,
                            raw := unhexS r }
+  | [k, e, f, r, l] => some { key := unhexS k, expected := parseWant e, fetched := if f = "-" then none else parseApk f,
+                              raw := unhexS r, later := (splitNE l "/").map fun x => if x = "-" then none else parseApk x }
   | _ => none
 
 def parseOp (s : String) : Option Op :=
